@@ -1,6 +1,7 @@
 import Driver.Common
 import ClarabelModel.Cones.Nonneg
 import ClarabelModel.Cones.Soc
+import ClarabelModel.Cones.PsdTriangle
 
 open Clarabel Driver
 
@@ -32,6 +33,64 @@ def fmtSoc (r : Bool × Soc.Cone Float) : String :=
     | some sp => (fmtFloats sp.u, fmtFloats sp.v, fmtFloat sp.d)
     | none => ("", "", "")
   s!"ok={fmtBool r.1} w={fmtFloats K.w} lam={fmtFloats K.lam} eta={fmtFloat K.eta} u={u} v={v} d={d}"
+
+/-- PSD cone state as taken from the implementation after `update_scaling(s,z)`:
+`n`, `lam`, `r`, `rinv` (column-major); `Λisqrt` and `Hs` are not read by these channels -/
+def psdCone (kv : KV) : Option (PsdTri.Cone Float) := do
+  let n ← kv.nat "n"
+  let lam ← kv.floats "lam"
+  let r ← kv.floats "r"
+  let rinv ← kv.floats "rinv"
+  pure ⟨n, lam, #[], r, rinv, #[]⟩
+
+/-- the operations of a history request: `ops=u,i,…`; operation `k` of kind `u` reads
+`s<k>`, `z<k>` -/
+def parseOps (kv : KV) : Option (List (Nat × Bool)) := do
+  let ops ← kv.str "ops"
+  let toks := splitList ops
+  let rec go (i : Nat) : List String → Option (List (Nat × Bool))
+    | [] => some []
+    | t :: ts => do
+      let rest ← go (i + 1) ts
+      if t == "u" then some ((i, true) :: rest)
+      else if t == "i" then some ((i, false) :: rest) else none
+  go 0 toks
+
+def socOps (kv : KV) : Option (List (Soc.Op Float)) := do
+  let ops ← parseOps kv
+  ops.mapM (fun (p : Nat × Bool) =>
+    if p.2 then do
+      let s ← kv.floats s!"s{p.1}"
+      let z ← kv.floats s!"z{p.1}"
+      pure (Soc.Op.update s z)
+    else pure Soc.Op.identity)
+
+def nnOps (kv : KV) : Option (List (Nonneg.Op Float)) := do
+  let ops ← parseOps kv
+  ops.mapM (fun (p : Nat × Bool) =>
+    if p.2 then do
+      let s ← kv.floats s!"s{p.1}"
+      let z ← kv.floats s!"z{p.1}"
+      pure (Nonneg.Op.update s z)
+    else pure Nonneg.Op.identity)
+
+def fmtSocHistory (l : List (Soc.Snapshot Float)) : String :=
+  let rec go (k : Nat) : List (Soc.Snapshot Float) → List String
+    | [] => []
+    | sn :: rest =>
+      let (u, v, d) := match sn.sparse with
+        | some sp => (fmtFloats sp.u, fmtFloats sp.v, fmtFloat sp.d)
+        | none => ("", "", "")
+      s!"ok{k}={fmtBool sn.ok} w{k}={fmtFloats sn.w} eta{k}={fmtFloat sn.eta} u{k}={u} v{k}={v} d{k}={d} hs{k}={fmtFloats sn.hs} y{k}={fmtFloats sn.y}"
+        :: go (k + 1) rest
+  " ".intercalate (go 0 l)
+
+def fmtNnHistory (l : List (Array Float × Array Float × Array Float)) : String :=
+  let rec go (k : Nat) : List (Array Float × Array Float × Array Float) → List String
+    | [] => []
+    | sn :: rest =>
+      s!"w{k}={fmtFloats sn.1} hs{k}={fmtFloats sn.2.1} y{k}={fmtFloats sn.2.2}" :: go (k + 1) rest
+  " ".intercalate (go 0 l)
 
 def handle (ch : String) (kv : KV) : String :=
   match ch with
@@ -130,6 +189,93 @@ def handle (ch : String) (kv : KV) : String :=
   | "soc.ds_from_dz_offset" =>
     match socCone kv, kv.floats "ds", kv.floats "zz" with
     | some K, some ds, some zz => fmtM (fv "out") (do let K ← K; Soc.dsFromDzOffset K.2 ds zz)
+    | _, _, _ => "bad-request"
+  -- ------------------------------------------------------------ PSD cone (LAPACK results given)
+  | "psd.svec_to_mat" =>
+    match kv.nat "n", kv.floats "x" with
+    | some n, some x =>
+      if x.size != PsdIndex.triangularNumber n then "err:unmodelled-size"
+      else fv "m" (PsdTri.colMajor n (PsdTri.svecToMat x))
+    | _, _ => "bad-request"
+  | "psd.mat_to_svec" =>
+    match kv.nat "n", kv.floats "m" with
+    | some n, some m =>
+      if m.size != n * n then "err:unmodelled-size"
+      else fv "x" (PsdTri.matToSvec n (PsdTri.matOf n m))
+    | _, _ => "bad-request"
+  | "psd.skron" =>
+    match kv.nat "n", kv.floats "a" with
+    | some n, some a =>
+      if a.size != n * n then "err:unmodelled-size"
+      else fv "hs" (PsdTri.skronPacked n (PsdTri.symView (PsdTri.matOf n a)))
+    | _, _ => "bad-request"
+  | "psd.update_scaling_tail" =>
+    match kv.nat "n", kv.floats "l1", kv.floats "l2", kv.floats "u", kv.floats "vt", kv.floats "sig" with
+    | some n, some l1, some l2, some u, some vt, some sig =>
+      fmtM (fun (r : PsdTri.Cone Float × Array Float) =>
+          s!"lam={fmtFloats r.1.lam} lamisqrt={fmtFloats r.1.lamIsqrt} r={fmtFloats r.1.R} rinv={fmtFloats r.1.Rinv} rrt={fmtFloats r.2} hs={fmtFloats r.1.Hs}")
+        (PsdTri.assembleScaling n l1 l2 u vt sig)
+    | _, _, _, _, _, _ => "bad-request"
+  | "psd.get_hs" =>
+    -- Hs from the implementation's own RRᵀ (bit-exact: `skron` + `pack_triu`)
+    match kv.nat "n", kv.floats "rrt", kv.nat "len" with
+    | some n, some a, some len =>
+      if a.size != n * n then "err:unmodelled-size"
+      else
+        let K : PsdTri.Cone Float := ⟨n, #[], #[], #[], #[], PsdTri.skronPacked n (PsdTri.symView (PsdTri.matOf n a))⟩
+        fmtM (fv "hs") (PsdTri.getHs K len)
+    | _, _, _ => "bad-request"
+  | "psd.set_identity" =>
+    match kv.nat "n" with
+    | some n =>
+      let K : PsdTri.Cone Float := PsdTri.identityScaling n
+      s!"r={fmtFloats K.R} rinv={fmtFloats K.Rinv} hs={fmtFloats K.Hs}"
+    | _ => "bad-request"
+  | "psd.mul_w" =>
+    match psdCone kv, kv.floats "x", kv.floats "y", kv.float "a", kv.float "b", kv.nat "t" with
+    | some K, some x, some y, some a, some b, some t => fmtM (fv "y") (PsdTri.mulW K (t != 0) y x a b)
+    | _, _, _, _, _, _ => "bad-request"
+  | "psd.mul_winv" =>
+    match psdCone kv, kv.floats "x", kv.floats "y", kv.float "a", kv.float "b", kv.nat "t" with
+    | some K, some x, some y, some a, some b, some t => fmtM (fv "y") (PsdTri.mulWinv K (t != 0) y x a b)
+    | _, _, _, _, _, _ => "bad-request"
+  | "psd.mul_hs" =>
+    match psdCone kv, kv.floats "x" with
+    | some K, some x => fmtM (fv "y") (PsdTri.mulHs K x)
+    | _, _ => "bad-request"
+  | "psd.circ_op" =>
+    match kv.nat "n", kv.floats "y", kv.floats "z" with
+    | some n, some y, some z => fmtM (fv "x") (PsdTri.circOp n y z)
+    | _, _, _ => "bad-request"
+  | "psd.lam_inv_circ_op" =>
+    match psdCone kv, kv.floats "x" with
+    | some K, some x => fmtM (fv "x") (PsdTri.lamInvCircOp K x)
+    | _, _ => "bad-request"
+  | "psd.affine_ds" =>
+    match psdCone kv, kv.nat "len" with
+    | some K, some len => fmtM (fv "ds") (PsdTri.affineDs K len)
+    | _, _ => "bad-request"
+  | "psd.combined_ds_shift" =>
+    match psdCone kv, kv.floats "dz", kv.floats "ds", kv.float "sigmamu" with
+    | some K, some dz, some ds, some sm =>
+      fmtM (fun (r : Array Float × Array Float × Array Float) =>
+          s!"shift={fmtFloats r.1} stepz={fmtFloats r.2.1} steps={fmtFloats r.2.2}")
+        (PsdTri.combinedDsShift K dz ds sm)
+    | _, _, _, _ => "bad-request"
+  | "psd.ds_from_dz_offset" =>
+    match psdCone kv, kv.floats "ds" with
+    | some K, some ds => fmtM (fv "out") (PsdTri.dsFromDzOffset K ds)
+    | _, _ => "bad-request"
+  -- ------------------------------------------------------------ histories on one cone object
+  | "soc.history" =>
+    match kv.nat "dim", socOps kv, kv.floats "x" with
+    | some dim, some ops, some x =>
+      fmtM fmtSocHistory (do let K ← Soc.new dim; Soc.runHistory K x ops)
+    | _, _, _ => "bad-request"
+  | "nn.history" =>
+    match kv.nat "dim", nnOps kv, kv.floats "x" with
+    | some dim, some ops, some x =>
+      fmtM fmtNnHistory (Nonneg.runHistory (Nonneg.new dim) x ops)
     | _, _, _ => "bad-request"
   | _ => "unknown-channel"
 
